@@ -45,5 +45,5 @@ for k in $(seq 1 $N); do git -C /repo worktree remove --force $L/repo$k; done
 git -C /repo worktree prune
 echo "== summary"
 echo "detected lines: $(grep -c DETECTED /verif/.work/regress_$$.log)"
-echo "not detected / problems:"; grep -E "MISSED|NOT-BUILD|does not apply|not clean|alarms" /verif/.work/regress_$$.log | grep -v " 0 alarms, 0 broken" | cut -c1-220
+echo "not detected / problems:"; grep -E "MISSED|NOT-BUILD|does not apply|not clean|alarms" /verif/.work/regress_$$.log | grep -v " [1-9][0-9]* quiet, 0 alarms, 0 broken" | cut -c1-220
 rm -rf $L
